@@ -62,7 +62,12 @@ def alignment_table(prog: Program, ctx: Ctx, rule: str, max_pos: int, max_kw: in
     n_shapes = 0
     bad_classes: set[str] = set()
     tuple_shape: tuple[int, int, int, int] | None = None
-    for text in shapes(max_pos, max_kw):
+    import re as _re
+
+    special = {"p0": "_q", "p1": "__p__", "a0": "__a", "a1": "self", "k0": "__k", "va": "args", "kw": "kwargs"}
+    # second pass: the same small shapes with names that *look* special (dunder / underscore / self / args): names carry no meaning for kinds
+    renamed = [_re.sub(r"\b(p0|p1|a0|a1|k0|va|kw)\b", lambda m: special[m.group(1)], t) for t in shapes(2, 1)]
+    for text in [*shapes(max_pos, max_kw), *renamed]:
         src = f"def f({text}): pass"
         try:
             tree = ast.parse(src)
@@ -236,6 +241,111 @@ def run(prog: Program, ctx: Ctx) -> None:  # noqa: PLR0912,PLR0915
         h_nodes = {x for _n, x in hand}
         for n, x in dele:
             ctx.ob("R4", key(hf, "drop-after-hand-over"), cfg.dominated_by_node(x, lambda y: y in h_nodes), "the pending entry is removed only after it was handed over", where(hf, n))
+
+    _definition_table(prog, ctx)
+
+
+DEFS = {
+    "async property": "@property\nasync def {n}(self) -> int: ...",
+    "async method": "async def {n}(self, a, b=1) -> str: ...",
+    "property": "@property\ndef {n}(self) -> int: ...",
+    "cached property": "@functools.cached_property\ndef {n}(self) -> int: ...",
+    "method": "def {n}(self, a, /, b, *c, d=1, **e): ...",
+    "staticmethod": "@staticmethod\ndef {n}(a, b=2): ...",
+    "classmethod": "@classmethod\ndef {n}(cls, a): ...",
+    "overloaded": "@typing.overload\ndef {n}(x: int) -> int: ...\n@typing.overload\ndef {n}(x: str) -> str: ...\ndef {n}(x): ...",
+    "property with setter": "@property\ndef {n}(self): ...\n@{n}.setter\ndef {n}(self, value): ...",
+}
+
+
+def _definition_table(prog: Program, ctx: Ctx) -> None:
+    """R5: the visitor's function handlers evaluated on real `def` nodes, alone and in every ordered pair inside one class body."""
+    import collections
+
+    from sa.absint import Native, Obj
+
+    ctx.rule("R5", "what the visitor builds for a definition (kind, labels, parameter names and kinds, overloads, setter) depends on that definition only: "
+                   "every definition gives the same object alone and after any other definition in the same class body; properties become attributes, "
+                   "functions list the parameters CPython binds")
+    M = "_griffe.models"
+    it = Interp(prog, max_depth=40, max_steps=2_000_000)
+    vf = prog.function("_griffe.agents.visitor.Visitor.visit_functiondef")
+    va = prog.function("_griffe.agents.visitor.Visitor.visit_asyncfunctiondef")
+
+    def visit(srcs: list[str]) -> dict | str:
+        klass = Obj(prog.cls(f"{M}.Class"), {"name": "K", "path": "m.K", "members": {}, "parent": None, "overloads": collections.defaultdict(list),
+                                             "imports_future_annotations": False}, label="m.K")
+        mod = Obj(prog.cls(f"{M}.Module"), {"name": "m", "path": "m", "members": {"K": klass}, "parent": None, "imports_future_annotations": False}, label="m")
+        mod.attrs["module"] = mod
+        klass.attrs["module"] = mod
+        klass.attrs["parent"] = mod
+
+        def set_member(n_, v_):  # what SetMembersMixin.set_member does for a plain object (C16 decides the real one)
+            klass.attrs["members"][n_] = v_
+            v_.attrs["parent"] = klass
+
+        klass.attrs["set_member"] = Native(set_member)
+        klass.attrs["get_member"] = Native(lambda n_: klass.attrs["members"][n_])
+        vis = Obj(prog.cls("_griffe.agents.visitor.Visitor"), {
+            "current": klass, "type_guarded": False, "extensions": Obj(None, {"call": Native(lambda *a, **k: None)}), "docstring_parser": None,
+            "docstring_options": {}, "lines_collection": None, "modules_collection": None, "filepath": "m.py", "code": ""}, label="visitor")
+        body = "\n".join(srcs)
+        tree = ast.parse("class K:\n" + "\n".join("    " + ln for ln in body.splitlines()))
+        try:
+            for node in tree.body[0].body:
+                it.steps = 0
+                it.call(va if isinstance(node, ast.AsyncFunctionDef) else vf, vis, node)
+        except Raised as r:
+            return f"raises {r.exc}"
+        out = {}
+        for name, o in klass.attrs["members"].items():
+            kind = o.cls.name if o.cls is not None else "?"
+            entry: dict = {"kind": kind, "labels": sorted(o.attrs.get("labels", []))}
+            if kind == "Function":
+                ps = o.attrs["parameters"]
+                plist = list(it._iterate(ps))
+                entry["parameters"] = [(q.attrs["name"], q.attrs["kind"].name.split(".")[-1],
+                                        q.attrs.get("default") is not None and not q.attrs["kind"].name.split(".")[-1].startswith("var_")) for q in plist]
+                entry["overloads"] = [[q.attrs["name"] for q in it._iterate(ov.attrs["parameters"])] for ov in (o.attrs.get("overloads") or [])]
+            else:
+                entry["setter"] = o.attrs.get("setter") is not None
+            out[name] = entry
+        return out
+
+    alone = {}
+    for dname, tmpl in DEFS.items():
+        got = visit([tmpl.format(n="x")])
+        alone[dname] = got
+        # reference: CPython's own view of the same class body
+        ns: dict = {}
+        exec(compile("import functools, typing\nclass K:\n" + "\n".join("    " + ln for ln in tmpl.format(n="x").splitlines()), "<def>", "exec", dont_inherit=True), ns)  # noqa: S102
+        raw = ns["K"].__dict__["x"]
+        is_prop = isinstance(raw, property) or type(raw).__name__ == "cached_property"
+        ok = isinstance(got, dict) and "x" in got and (got["x"]["kind"] == ("Attribute" if is_prop else "Function"))
+        detail = f"`{dname}` alone: {got}"
+        if ok and not is_prop:
+            fn = raw.__func__ if isinstance(raw, (staticmethod, classmethod)) else raw
+            want = [(q.name, KIND_NAME[q.kind], q.default is not inspect.Parameter.empty) for q in inspect.signature(fn).parameters.values()]
+            ok = got["x"]["parameters"] == want
+            detail += f"; CPython binds {want}"
+        if ok and is_prop:
+            ok = got["x"]["setter"] == (getattr(raw, "fset", None) is not None) and "property" in got["x"]["labels"]
+        if ok and "async" in dname:
+            ok = "async" in got["x"]["labels"]
+        if ok and dname == "overloaded":
+            ok = got["x"]["overloads"] == [["x"], ["x"]]
+        ctx.ob("R5", f"definition|{dname}", ok, detail, where(vf))
+    n = 0
+    for (d1, t1), (d2, t2) in itertools.product(DEFS.items(), repeat=2):
+        got = visit([t1.format(n="first"), t2.format(n="second")])
+        n += 1
+        want2 = alone[d2]["x"] if isinstance(alone[d2], dict) and "x" in alone[d2] else None
+        want1 = alone[d1]["x"] if isinstance(alone[d1], dict) and "x" in alone[d1] else None
+        ok = isinstance(got, dict) and got.get("second") == want2 and got.get("first") == want1
+        ctx.ob("R5", f"independent|{d1} then {d2}", ok,
+               f"`{d2}` defined after `{d1}`: {got.get('second') if isinstance(got, dict) else got}; alone: {want2}" + ("" if ok else f" (first: {got.get('first') if isinstance(got, dict) else got}, alone {want1})"),
+               where(vf))
+    ctx.expect_min("R5", n, 60)
 
 
 def _shape_class(text: str) -> str:
